@@ -134,12 +134,14 @@ def sig(b):
     why = [x.strip().strip('"') for x in str(b.get("why", "")).split(",")]
     s = {"ev": b.get("ev"), "ver": "v12" if r.get("ver", 1) <= 2 else "v34", "lf": bool(r.get("lf")), "devs": r.get("devs", ""),
          "why": why[0], "model": why[1] if len(why) > 1 else "", "res": str(rec.get("res", "")).split(":")[0],
-         "msg": rec.get("msg", ""), "cause": (why[2].split(":")[-1] if len(why) > 2 else "")}
+         "msg": rec.get("msg", ""), "cause": (why[2].split(":")[-1] if len(why) > 2 else ""),
+         # options of the call that stored the content this Read is about (class attributes of the case)
+         "addopts": "+".join((b.get("lastadd") or {}).get(k, "") for k in ("comp", "enc")) if b.get("lastadd") else ""}
     if b.get("ev") == "Check":
         kinds = [p.get("kind") for p in (r.get("preds") or [])]
         ck = rec.get("ck", 0)
         s["model"] = "asmodel" if 0 < ck <= len(kinds) and kinds[ck - 1] == "unopenable" else "notmodel"
-    elif b.get("ev") not in ("Read", "List"):
+    elif b.get("ev") not in ("Read", "List", "SRead"):
         # a call whose result no map operation explains: is it the result the model of the code predicted?
         pres = r.get("pres") or []
         oi = rec.get("oi", 0)
@@ -185,6 +187,19 @@ def run(ctx, cases_override=None):
         f.result()
     pool.shutdown()
     res = ctx.validate("Trace_MpqMap", trace, timeout=900)
+    # attach to every rejected Read the Add call that stored the content of that name (signature attribute)
+    if res["bad"]:
+        lines = open(trace).read().splitlines()
+        for b in res["bad"]:
+            if b.get("ev") != "Read":
+                continue
+            n = (b.get("rec") or {}).get("n")
+            for k in range(b["line"] - 2, b.get("reset_line", 1) - 1, -1):
+                if '"ev":"Add"' in lines[k]:
+                    r = json.loads(lines[k])
+                    if r.get("n") == n and r.get("res") == "ok":
+                        b["lastadd"] = {"comp": r.get("comp"), "enc": r.get("enc")}
+                        break
     # coverage numbers from what was actually replayed
     kinds = {}
     hist_len = {}
@@ -202,7 +217,6 @@ def run(ctx, cases_override=None):
             elif len(samples) < 8 and r["ev"] in ("Add", "Read", "Rename"):
                 samples.append(r)
     pred_drift = sum(1 for d in ctx.drift if "pred" in d["what"])
-    sread_drift = sum(1 for d in ctx.drift if "sessionread" in d["what"])
     cov = {
         "traces_validated_against_impl": res["traces"],
         "samples": samples,
@@ -216,14 +230,8 @@ def run(ctx, cases_override=None):
         "exhaustive": False,
         "exhaustive_part": "classes xa/xb: TLC enumerates every history up to the length bound over 3 names x {add(rep),add(norep),remove,rename,compact,flush,reopen}; xb is replayed completely, xa as a seed-rotated residue class (quick 1/3 of <= 3 calls, thorough 1/6 of <= 4 calls)",
         "code_model_prediction_drift": pred_drift,
-        "session_read_drift": sread_drift,
     }
-    if sread_drift:
-        ctx.notes.append(f"D-level: {sread_drift} of {kinds.get('SRead', 0)} in-session MutableArchive::read_file calls right after a successful add "
-                         "did not return the added bytes (read_current_file delegates compressed/encrypted blocks to the Archive opened "
-                         "earlier, which does not know the new block: FileNotFound); the property speaks about the reopened archive only")
-    ctx.drift = ([d for d in ctx.drift if "list" not in d["what"] and "sessionread" not in d["what"]][:14]
-                 + [d for d in ctx.drift if "sessionread" in d["what"]][:3] + [d for d in ctx.drift if "list" in d["what"]][:3])
+    ctx.drift = [d for d in ctx.drift if "list" not in d["what"]][:17] + [d for d in ctx.drift if "list" in d["what"]][:3]
     assumptions = ["single process, no concurrent writer; the file system does not fail",
                    "starting archives are produced by ArchiveBuilder (16-slot hash table, tables behind the data)",
                    "a call that does not return within 5 s (normal: < 5 ms) is recorded as a hang"]
